@@ -150,7 +150,11 @@ func (t *shared) ReleasePendingPages() {
 	}
 	// Release unused txid extents.
 	for _, tid := range t.readonlyTXIDs {
-		t.releaseRange(minid, tid-1)
+		// tid-1 would wrap around for a reader at txid 0 and turn the empty
+		// extent below it into the range of all transactions.
+		if tid > 0 {
+			t.releaseRange(minid, tid-1)
+		}
 		minid = tid + 1
 	}
 	t.releaseRange(minid, common.Txid(math.MaxUint64))
